@@ -29,6 +29,7 @@ func runC01(c *Ctx) {
 		ruleClones(c, p, "C01.clones")
 		ruleReaderSource(c, p, "C01.source")
 		ruleReadFull(c, p, "C01.readfull")
+		ruleScratchAlias(c, p, "C01.scratch")
 	}
 	p := c.Prog(core.CfgDefault)
 	if p == nil {
@@ -36,6 +37,7 @@ func runC01(c *Ctx) {
 	}
 	ruleBlockShape(c, p)
 	ruleVectoredEquiv(c, p, "C01.vectored")
+	ruleExitGuards(c, p, "C01.guard")
 	ruleKeyWidth(c, p)
 	ruleDict(c, p, "C01.dict")
 	ruleRebuild(c, p, "C01.rebuild")
@@ -44,6 +46,7 @@ func runC01(c *Ctx) {
 	ruleOffsetsAppend(c, p)
 	ruleNullFlag(c, p)
 	ruleStateSet(c, p)
+	ruleStringIdioms(c, p, "C01.idioms")
 	ruleResetBefore(c, p, "C01.reset")
 	c.R.Assumptions = append(c.R.Assumptions,
 		"decided: append-only encoders, agreement of encoder / vectored writer / decoder on sequence and width of what is on the wire in every build configuration and revision, LowCardinality key width and per-width key columns, state/prepare forwarding of wrappers; not decided: equality of decoded and encoded values for all inputs")
@@ -786,4 +789,141 @@ func ruleStateSet(c *Ctx, p *core.Program) {
 		}
 	}
 	c.R.Floor(rule, cfg, n, 8)
+}
+
+// ruleScratchAlias: the reader's scratch buffer never becomes part of a column or message.
+func ruleScratchAlias(c *Ctx, p *core.Program, rule string) {
+	c.R.Rule(rule, "ownership of the reader's scratch buffer: the slices returned by the proto.Reader methods that hand out Reader.b.Buf (found by what they return: ReadRaw, StrRaw) are only read - copied element-wise, appended FROM, converted to string - and never stored into a field, element or global (directly or re-sliced): the next varint, string or raw read overwrites the scratch from index 0, so a column that keeps it sees its first rows replaced by later header bytes")
+	cfg := p.Cfg.Name
+	// scratch-returning methods of Reader
+	scratch := map[*ssa.Function]bool{}
+	if rt := p.NamedType(core.PkgProto, "Reader"); rt != nil {
+		for i := 0; i < rt.NumMethods(); i++ {
+			fn := p.Prog.FuncValue(rt.Method(i))
+			if fn == nil || fn.Blocks == nil || fn.Signature.Results().Len() == 0 {
+				continue
+			}
+			if _, isSlice := fn.Signature.Results().At(0).Type().Underlying().(*types.Slice); !isSlice {
+				continue
+			}
+			for _, b := range fn.Blocks {
+				ret, ok := b.Instrs[len(b.Instrs)-1].(*ssa.Return)
+				if !ok {
+					continue
+				}
+				v := ret.Results[0]
+				if u, ok := v.(*ssa.UnOp); ok && u.Op == token.MUL {
+					if fa, ok := u.X.(*ssa.FieldAddr); ok && fieldNameOnly(fa.X.Type(), fa.Field) == "Buf" && strings.HasSuffix(core.FieldOrigin(fa.X, 0), "Reader.b") {
+						scratch[fn] = true
+					}
+				}
+			}
+		}
+	}
+	if len(scratch) == 0 {
+		c.R.Unk(rule, "proto.Reader", cfg, "", "no method returning the scratch buffer found (anchor lost)")
+		return
+	}
+	n := 0
+	for _, fn := range p.Funcs() {
+		if pkgOf(fn) == nil || !strings.HasPrefix(pkgOf(fn).Path(), core.PkgCh) {
+			continue
+		}
+		k := 0
+		for _, call := range core.Calls(fn) {
+			sf := core.StaticFn(call)
+			if sf == nil || !scratch[sf] || scratch[fn] {
+				continue
+			}
+			n++
+			k++
+			key := sprintf("%s/scratch#%d", core.FuncName(fn), k)
+			// taint: the slice result and its re-slices
+			tainted := map[ssa.Value]bool{}
+			var mark func(v ssa.Value, d int)
+			mark = func(v ssa.Value, d int) {
+				if tainted[v] || d > 8 || v.Referrers() == nil {
+					return
+				}
+				tainted[v] = true
+				for _, r := range *v.Referrers() {
+					switch x := r.(type) {
+					case *ssa.Extract:
+						if x.Index == 0 {
+							mark(x, d+1)
+						}
+					case *ssa.Slice:
+						if x.X == v {
+							mark(x, d+1)
+						}
+					case *ssa.ChangeType:
+						mark(x, d+1)
+					case *ssa.Phi:
+						mark(x, d+1)
+					}
+				}
+			}
+			if v := call.Value(); v != nil {
+				mark(v, 0)
+			}
+			bad := false
+			// any later read through the same Reader overwrites the scratch: no use of it after one
+			rd := readerClass(p)
+			for v := range tainted {
+				if v.Referrers() == nil || bad {
+					continue
+				}
+				for _, r := range *v.Referrers() {
+					if _, isEx := r.(*ssa.Extract); isEx {
+						continue
+					}
+					if _, isDbg := r.(*ssa.DebugRef); isDbg {
+						continue
+					}
+					for _, c2 := range core.Calls(fn) {
+						if c2 == call || !rd(fn, c2) {
+							continue
+						}
+						i2 := c2.(ssa.Instruction)
+						if core.Dominates(call.(ssa.Instruction), i2) && core.Dominates(i2, r) && i2 != r {
+							bad = true
+							c.R.Bad(rule, key, cfg, p.Pos(r.Pos()), "the slice returned by "+sf.Name()+" is used after another read from the same reader ("+core.InstrString(i2)+"): that read reuses the scratch buffer, so the earlier value now shows the later bytes")
+							break
+						}
+					}
+					if bad {
+						break
+					}
+				}
+			}
+			for v := range tainted {
+				if v.Referrers() == nil {
+					continue
+				}
+				for _, r := range *v.Referrers() {
+					switch x := r.(type) {
+					case *ssa.Store:
+						if x.Val != v {
+							continue
+						}
+						if _, local := x.Addr.(*ssa.Alloc); local {
+							continue
+						}
+						bad = true
+						c.R.Bad(rule, key, cfg, p.Pos(x.Pos()), "the slice returned by "+sf.Name()+" (the reader's scratch buffer) is stored into "+accessPath(x.Addr, 0)+": it is overwritten by the next read")
+					case *ssa.Return:
+						if fo := fnObj(fn); fo != nil && core.RecvNamed(fo) != nil && core.RecvNamed(fo).Obj().Name() == "Reader" {
+							continue // Reader's own wrappers hand it on under the same contract
+						}
+						bad = true
+						c.R.Bad(rule, key, cfg, p.Pos(x.Pos()), "the reader's scratch buffer is returned to the caller by "+core.FuncName(fn))
+					}
+				}
+			}
+			if !bad {
+				c.R.Ok(rule, key, cfg, p.Pos(call.Pos()), "scratch only read")
+			}
+		}
+	}
+	c.R.Floor(rule, cfg, n, 3)
 }
